@@ -129,16 +129,18 @@ static int p2_callsite_ok(const unsigned char *b, unsigned blk_off)
 #define P2_VIEW_BLOCK0 0
 #define P2_VIEW_TAIL 1
 #define P2_TAIL (P2_ALLOC - (P2_BS - 12u))
+#define P2_VIEW_WINDOW 2
+#define P2_WINDOW 264u
 
 static void p2_setup(struct p2_world *w, int mode, int view)
 {
 	w->ctx = malloc(sizeof(*w->ctx));
 	w->fs = malloc(sizeof(*w->fs));
 	w->sb = malloc(sizeof(*w->sb));
-	w->len = view == P2_VIEW_BLOCK0 ? P2_ALLOC : P2_TAIL;
+	w->len = view == P2_VIEW_BLOCK0 ? P2_ALLOC : view == P2_VIEW_TAIL ? P2_TAIL : P2_WINDOW;
 	w->buf = malloc(w->len);	/* contents beyond IN.blk: arbitrary */
 	ASSUME(w->ctx && w->fs && w->sb && w->buf);
-	memcpy(w->buf, IN.blk, P2_BS);
+	memcpy(w->buf, IN.blk, w->len < P2_BS ? w->len : P2_BS);
 	w->fs->super = w->sb;
 	w->fs->blocksize = P2_BS;
 	w->fs->encoding = 0;
